@@ -282,6 +282,23 @@ func cmpFold(op string, a, b Term) Term {
 	}
 	return app(SBool, op, a, b)
 }
+// CellIdx is the index of element i of a slice with offset off inside its backing array. With a
+// symbolic offset the sum is hidden behind the function `at` (axiom at(o,i) = o+i with pattern), so
+// that quantifier instantiation by E-matching is not defeated by arithmetic normalisation.
+func CellIdx(off, i Term) Term {
+	if n, ok := litInt(off); ok && n == 0 {
+		return i
+	}
+	if _, ok := litInt(off); ok {
+		if _, ok2 := litInt(i); ok2 {
+			return Add(off, i)
+		}
+	}
+	return app(SInt, "at", off, i)
+}
+
+const atDecl = "(declare-fun at (Int Int) Int)\n(assert (forall ((o!a Int) (i!a Int)) (! (= (at o!a i!a) (+ o!a i!a)) :pattern ((at o!a i!a)))))\n"
+
 func Le(a, b Term) Term { return cmpFold("<=", a, b) }
 func Lt(a, b Term) Term { return cmpFold("<", a, b) }
 func Ge(a, b Term) Term { return cmpFold(">=", a, b) }
